@@ -12,6 +12,8 @@
     gen_Truncate    Truncate(s, n)                       = s.take n
     gen_ParseInt32 / gen_ParseInt64                      = Udp.parseIntW 4 / 8
     gen_ZeroToEmpty ParseStringZeroToEmpty(v)            = Udp.zeroToEmpty v
+    gen_Process_Dbc / gen_Process_Sql / gen_Process_SqlParam   the Process() bodies of the three connection-string packs
+                                                         = Udp.processDbc on Dbc, the [QUERY TOO LONG] rule on Sql
     gen_ArrayInt16ToString  ArrayInt16ToString(a, c)     = Udp.joinInts c a   (the text UdpActiveStatsPack.Write sends)
 
   An edit of one of these functions changes the transcription, and the proof about it no longer
@@ -811,7 +813,208 @@ theorem gen_maskDbc (s : Bytes) (hs : s ≠ []) :
   have : s.isEmpty = false := by simpa using hs
   simp [this]
 
+/-! ### the `Process()` bodies of the three packs that carry a connection string
+
+Transcribed like the functions above (receiver fields 0 = Ver, 1 = Dbc, 2 = Sql).  The method call
+`p.ToStringStr(k, v)` on the object of `paramtext.NewParamKVSeperate(s, sep, "=")` is function 0 of the
+environment and means the transcribed ParamKV code (`goMaskPass`, proved equal to `maskPass` above). -/
+
+def feMask : FEnv := fun i args _ =>
+  if i = 0 then
+    match args with
+    | [.pair (.str s) (.pair (.str [c]) (.str [61])), .str k, .str v] => goMaskPass c k v s
+    | _ => none
+  else none
+
+theorem feMask_apply (c : Nat) (s k v : Bytes) (fld : Store) (hk : k ≠ []) :
+    feMask 0 [.pair (.str s) (.pair (.str [c]) (.str [61])), .str k, .str v] fld = some (.str (maskPass c k v s)) := by
+  simp only [feMask, if_true]; exact gen_maskPass c k v s hk
+
+/-- **UdpTxDbcPack.Process()**, transcribed, computes `processDbc` for every version and every Dbc -/
+theorem gen_Process_Dbc (ver : Int) (dbc : Bytes) (fld : Store) (h0 : fld 0 = .int ver) (h1 : fld 1 = .str dbc) :
+    ∃ fld', runFn feMask process.UdpTxDbcPack [] fld = some (.nil, fld') ∧
+      fld' 1 = .str (processDbc ver dbc) ∧ fld' 0 = .int ver ∧ fld' 2 = fld 2 := by
+  have hpw : kwPassword ≠ [] := by decide
+  have hkw : ([112, 97, 115, 115, 119, 111, 114, 100] : Bytes) = kwPassword := rfl
+  have hh : ([35] : Bytes) = kwHash := rfl
+  unfold processDbc maskDbc masksAt
+  by_cases he : dbc = []
+  · subst he
+    refine ⟨fld, ?_, by simp [h1], h0, rfl⟩
+    by_cases c5 : 50000 < ver
+    · simp [runFn, process.UdpTxDbcPack, execSs_cons, execSs_nil, execS_if, evalE, binApply, vEq, h0, h1, c5]
+    · by_cases c4 : 40000 < ver
+      · simp [runFn, process.UdpTxDbcPack, execSs_cons, execSs_nil, execS_if, evalE, binApply, vEq, h0, h1, c5, c4]
+      · by_cases c3 : 30000 < ver
+        · simp [runFn, process.UdpTxDbcPack, execSs_cons, execSs_nil, execS_if, evalE, binApply, vEq, h0, h1, c5, c4, c3]
+        · by_cases c2 : 20000 < ver
+          · simp [runFn, process.UdpTxDbcPack, execSs_cons, execSs_nil, execS_if, evalE, binApply, vEq, h0, h1, c5, c4, c3, c2]
+          · simp [runFn, process.UdpTxDbcPack, execSs_cons, execSs_nil, execS_if, evalE, binApply, vEq, h0, h1, c5, c4, c3, c2]
+  · have hb : (dbc == []) = false := by simpa using he
+    have hemp : dbc.isEmpty = false := by simpa using he
+    by_cases c5 : 50000 < ver
+    · refine ⟨upd (upd fld 1 (.str (maskPass 32 kwPassword kwHash dbc))) 1
+        (.str (maskPass 59 kwPassword kwHash (maskPass 32 kwPassword kwHash dbc))), ?_, ?_, ?_, ?_⟩
+      · simp [runFn, process.UdpTxDbcPack, execSs_cons, execSs_nil, execS_if, execS_assign, evalE, evalEs, biApply,
+          binApply, vEq, setL, upd_apply, h0, h1, c5, hb, hkw, hh, feMask_apply _ _ _ _ _ hpw]
+      · have : ver > 50000 := c5
+        simp [upd_apply, this, hemp]
+      · simp [upd_apply, h0]
+      · simp [upd_apply]
+    · by_cases c4 : 40000 < ver
+      · refine ⟨fld, ?_, ?_, h0, rfl⟩
+        · simp [runFn, process.UdpTxDbcPack, execSs_cons, execSs_nil, execS_if, evalE, binApply, vEq, h0, h1, c5, c4]
+        · have a : ¬ ver > 50000 := c5
+          have b : ¬ ver ≤ 20000 := by omega
+          simp [h1, a, b]
+      · by_cases c3 : 30000 < ver
+        · refine ⟨fld, ?_, ?_, h0, rfl⟩
+          · simp [runFn, process.UdpTxDbcPack, execSs_cons, execSs_nil, execS_if, evalE, binApply, vEq, h0, h1, c5, c4, c3]
+          · have a : ¬ ver > 50000 := c5
+            have b : ¬ ver ≤ 20000 := by omega
+            simp [h1, a, b]
+        · by_cases c2 : 20000 < ver
+          · refine ⟨fld, ?_, ?_, h0, rfl⟩
+            · simp [runFn, process.UdpTxDbcPack, execSs_cons, execSs_nil, execS_if, evalE, binApply, vEq, h0, h1, c5, c4, c3, c2]
+            · have a : ¬ ver > 50000 := c5
+              have b : ¬ ver ≤ 20000 := by omega
+              simp [h1, a, b]
+          · refine ⟨upd (upd fld 1 (.str (maskPass 32 kwPassword kwHash dbc))) 1
+              (.str (maskPass 59 kwPassword kwHash (maskPass 32 kwPassword kwHash dbc))), ?_, ?_, ?_, ?_⟩
+            · simp [runFn, process.UdpTxDbcPack, execSs_cons, execSs_nil, execS_if, execS_assign, evalE, evalEs, biApply,
+                binApply, vEq, setL, upd_apply, h0, h1, c5, c4, c3, c2, hb, hkw, hh, feMask_apply _ _ _ _ _ hpw]
+            · have b : ver ≤ 20000 := by omega
+              simp [upd_apply, b, hemp]
+            · simp [upd_apply, h0]
+            · simp [upd_apply]
+
+theorem process_SqlParam_same : process.UdpTxSqlParamPack = process.UdpTxSqlPack := rfl
+
+/-- what `Process()` of the SQL packs makes of Sql -/
+def sqlAfter (ver : Int) (sql : Bytes) : Bytes :=
+  if masksAt ver = true ∧ 32768 ≤ sql.length then tooLongPrefix ++ sql else sql
+
+/-- **UdpTxSqlPack.Process()** (and UdpTxSqlParamPack's, the same body), transcribed, computes `processDbc`
+    on Dbc and the `[QUERY TOO LONG]` prefix on Sql for every version and all field values -/
+theorem gen_Process_Sql (ver : Int) (dbc sql : Bytes) (fld : Store) (h0 : fld 0 = .int ver) (h1 : fld 1 = .str dbc)
+    (h2 : fld 2 = .str sql) :
+    ∃ fld', runFn feMask process.UdpTxSqlPack [] fld = some (.nil, fld') ∧
+      fld' 1 = .str (processDbc ver dbc) ∧ fld' 2 = .str (sqlAfter ver sql) ∧ fld' 0 = .int ver := by
+  have hpw : kwPassword ≠ [] := by decide
+  have hkw : ([112, 97, 115, 115, 119, 111, 114, 100] : Bytes) = kwPassword := rfl
+  have hh : ([35] : Bytes) = kwHash := rfl
+  have hpre : ([91, 81, 85, 69, 82, 89, 32, 84, 79, 79, 32, 76, 79, 78, 71, 93, 13, 10] : Bytes) = tooLongPrefix := rfl
+  unfold processDbc maskDbc sqlAfter masksAt
+  by_cases hm : ver > 50000 ∨ ver ≤ 20000
+  · -- a masking family: Go, or the final else (PHP)
+    have hmask : (decide (ver > 50000) || decide (ver ≤ 20000)) = true := by
+      rcases hm with h | h <;> simp [h]
+    by_cases he : dbc = []
+    · subst he
+      by_cases hl : (32768 : Int) ≤ (sql.length : Int)
+      · have hln : 32768 ≤ sql.length := by omega
+        by_cases c5 : 50000 < ver
+        · refine ⟨?_, ?_, ?_, ?_, ?_⟩
+          rotate_left
+          · simp [runFn, process.UdpTxSqlPack, execSs_cons, execSs_nil, execS_if, execS_assign, evalE, evalEs, biApply,
+              binApply, vEq, setL, upd_apply, h0, h1, h2, c5, hl, hpre]
+            rfl
+          all_goals (simp [upd_apply, h0, h1, h2, hmask, hl, hln]; try omega)
+        · have c2 : ¬ 20000 < ver := by omega
+          have c3 : ¬ 30000 < ver := by omega
+          have c4 : ¬ 40000 < ver := by omega
+          refine ⟨?_, ?_, ?_, ?_, ?_⟩
+          rotate_left
+          · simp [runFn, process.UdpTxSqlPack, execSs_cons, execSs_nil, execS_if, execS_assign, evalE, evalEs, biApply,
+              binApply, vEq, setL, upd_apply, h0, h1, h2, c5, c4, c3, c2, hl, hpre]
+            rfl
+          all_goals (simp [upd_apply, h0, h1, h2, hmask, hl, hln]; try omega)
+      · have hln : ¬ 32768 ≤ sql.length := by omega
+        by_cases c5 : 50000 < ver
+        · refine ⟨?_, ?_, ?_, ?_, ?_⟩
+          rotate_left
+          · simp [runFn, process.UdpTxSqlPack, execSs_cons, execSs_nil, execS_if, execS_assign, evalE, evalEs, biApply,
+              binApply, vEq, setL, upd_apply, h0, h1, h2, c5, hl, hpre]
+            rfl
+          all_goals (simp [upd_apply, h0, h1, h2, hmask, hl, hln]; try omega)
+        · have c2 : ¬ 20000 < ver := by omega
+          have c3 : ¬ 30000 < ver := by omega
+          have c4 : ¬ 40000 < ver := by omega
+          refine ⟨?_, ?_, ?_, ?_, ?_⟩
+          rotate_left
+          · simp [runFn, process.UdpTxSqlPack, execSs_cons, execSs_nil, execS_if, execS_assign, evalE, evalEs, biApply,
+              binApply, vEq, setL, upd_apply, h0, h1, h2, c5, c4, c3, c2, hl, hpre]
+            rfl
+          all_goals (simp [upd_apply, h0, h1, h2, hmask, hl, hln]; try omega)
+    · have hb : (dbc == []) = false := by simpa using he
+      have hemp : dbc.isEmpty = false := by simpa using he
+      by_cases hl : (32768 : Int) ≤ (sql.length : Int)
+      · have hln : 32768 ≤ sql.length := by omega
+        by_cases c5 : 50000 < ver
+        · refine ⟨?_, ?_, ?_, ?_, ?_⟩
+          rotate_left
+          · simp [runFn, process.UdpTxSqlPack, execSs_cons, execSs_nil, execS_if, execS_assign, evalE, evalEs, biApply,
+              binApply, vEq, setL, upd_apply, h0, h1, h2, c5, hl, hb, hkw, hh, hpre, feMask_apply _ _ _ _ _ hpw]
+            rfl
+          all_goals (simp [upd_apply, h0, h1, h2, hmask, hl, hln, hemp]; try omega)
+        · have c2 : ¬ 20000 < ver := by omega
+          have c3 : ¬ 30000 < ver := by omega
+          have c4 : ¬ 40000 < ver := by omega
+          refine ⟨?_, ?_, ?_, ?_, ?_⟩
+          rotate_left
+          · simp [runFn, process.UdpTxSqlPack, execSs_cons, execSs_nil, execS_if, execS_assign, evalE, evalEs, biApply,
+              binApply, vEq, setL, upd_apply, h0, h1, h2, c5, c4, c3, c2, hl, hb, hkw, hh, hpre, feMask_apply _ _ _ _ _ hpw]
+            rfl
+          all_goals (simp [upd_apply, h0, h1, h2, hmask, hl, hln, hemp]; try omega)
+      · have hln : ¬ 32768 ≤ sql.length := by omega
+        by_cases c5 : 50000 < ver
+        · refine ⟨?_, ?_, ?_, ?_, ?_⟩
+          rotate_left
+          · simp [runFn, process.UdpTxSqlPack, execSs_cons, execSs_nil, execS_if, execS_assign, evalE, evalEs, biApply,
+              binApply, vEq, setL, upd_apply, h0, h1, h2, c5, hl, hb, hkw, hh, hpre, feMask_apply _ _ _ _ _ hpw]
+            rfl
+          all_goals (simp [upd_apply, h0, h1, h2, hmask, hl, hln, hemp]; try omega)
+        · have c2 : ¬ 20000 < ver := by omega
+          have c3 : ¬ 30000 < ver := by omega
+          have c4 : ¬ 40000 < ver := by omega
+          refine ⟨?_, ?_, ?_, ?_, ?_⟩
+          rotate_left
+          · simp [runFn, process.UdpTxSqlPack, execSs_cons, execSs_nil, execS_if, execS_assign, evalE, evalEs, biApply,
+              binApply, vEq, setL, upd_apply, h0, h1, h2, c5, c4, c3, c2, hl, hb, hkw, hh, hpre, feMask_apply _ _ _ _ _ hpw]
+            rfl
+          all_goals (simp [upd_apply, h0, h1, h2, hmask, hl, hln, hemp]; try omega)
+  · -- Batch, .NET, Python: nothing happens
+    have c5 : ¬ 50000 < ver := by omega
+    have c2 : 20000 < ver := by omega
+    have hmask : (decide (ver > 50000) || decide (ver ≤ 20000)) = false := by
+      have a : ¬ ver > 50000 := by omega
+      have b : ¬ ver ≤ 20000 := by omega
+      simp [a, b]
+    refine ⟨fld, ?_, by simp [h1, hmask], by simp [h2, hmask], h0⟩
+    by_cases c4 : 40000 < ver
+    · simp [runFn, process.UdpTxSqlPack, execSs_cons, execSs_nil, execS_if, evalE, binApply, vEq, h0, c5, c4]
+    · by_cases c3 : 30000 < ver
+      · simp [runFn, process.UdpTxSqlPack, execSs_cons, execSs_nil, execS_if, evalE, binApply, vEq, h0, c5, c4, c3]
+      · simp [runFn, process.UdpTxSqlPack, execSs_cons, execSs_nil, execS_if, evalE, binApply, vEq, h0, c5, c4, c3, c2]
+
+theorem gen_Process_SqlParam (ver : Int) (dbc sql : Bytes) (fld : Store) (h0 : fld 0 = .int ver) (h1 : fld 1 = .str dbc)
+    (h2 : fld 2 = .str sql) :
+    ∃ fld', runFn feMask process.UdpTxSqlParamPack [] fld = some (.nil, fld') ∧
+      fld' 1 = .str (processDbc ver dbc) ∧ fld' 2 = .str (sqlAfter ver sql) ∧ fld' 0 = .int ver := by
+  rw [process_SqlParam_same]; exact gen_Process_Sql ver dbc sql fld h0 h1 h2
+
+/-- the Sql rule of the transcribed bodies is the model's derivation `dSqlTooLong` -/
+theorem sqlAfter_model (ver : Int) (sql : Bytes) :
+    (match dSqlTooLong.apply ver (fun f => if f = "Sql" then .str sql else .null) with
+      | some st => st "Sql" | none => .null) = .str (sqlAfter ver sql) := by
+  unfold sqlAfter Deriv.apply dSqlTooLong masksAtB
+  by_cases hm : masksAt ver = true <;> by_cases hl : 32768 ≤ sql.length <;>
+    simp [hm, hl, Val.asStr, assignAll, Rec.set]
+
 /-! non-vacuity: the transcriptions run -/
+example : (runFn feMask process.UdpTxDbcPack [] (fun j => if j = 0 then .int 50100 else if j = 1 then
+    .str [112, 97, 115, 115, 119, 111, 114, 100, 61, 120] else .nil)).map (fun r => r.2 1) =
+    some (.str [112, 97, 115, 115, 119, 111, 114, 100, 61, 35]) := by decide +kernel
 example : goMaskPass 59 kwPassword kwHash [117, 61, 49, 59, 112, 97, 115, 115, 119, 111, 114, 100, 61, 120] =
     some (.str [117, 61, 49, 59, 112, 97, 115, 115, 119, 111, 114, 100, 61, 35]) := by decide +kernel
 example : mkFEnv stringutil.prog 1 [.str [45, 53]] (fun _ => .nil) = some (.int (-5)) := by decide +kernel
